@@ -90,5 +90,5 @@ TraceNext == l <= Len(Tr) /\ (Match \/ Skip)
 TraceSpec == TraceInit /\ [][TraceNext]_<<n, K, act, l>>
 TraceView == <<n, K, l>>
 
-Verdict == PrintT(<<"TRACE", ToJson([len |-> Len(Tr)])>>)
+Verdict == PrintT(<<"TRACE", ToJson([len |-> Len(Tr), generated |-> TLCGet("stats").generated])>>)
 =============================================================================
